@@ -12,7 +12,7 @@ CHECKS = {
    design_ref="DESIGN.md 2.6, 5 (C14)",
    note="Trusts: the harness projection of netlink keys to byte tuples; TLC's evaluation of the relation; finite domain (5 v4 / 3 v6 bases, boundary bit flips) instead of all 2^32/2^128 addresses."),
  "C16": dict(
-   technique="TLA+ spec Token.tla model-checked by TLC; TLC-simulated + random + free-running scenarios driven through the real OpenAPI methods with a fake HTTP transport; recorded traces validated by TLC (Token_trace.tla)",
+   technique="TLA+ spec Token.tla model-checked by TLC; TLC-simulated + random + free-running scenarios driven through the real OpenAPI methods with a fake HTTP transport; recorded traces validated by TLC (Token_trace.tla); inductive invariant of the abstracted discipline (TokenCore.tla) checked by Apalache",
    category="model_checking",
    text="Token.tla states the token discipline (retry reuses a failed attempt's token, fresh otherwise, in-flight tokens distinct, no sharing across parameter sets) and is checked exhaustively for 2-3 concurrent callers. The real client code (option builders, key generator, every create/assign call site incl. rollback) is bound by trace validation: each recorded execution must be a behaviour of the spec with the token choice as a silent step.",
    design_ref="DESIGN.md 4.5, 5 (C16)",
